@@ -399,15 +399,10 @@ static int runCase(const std::vector<string>& lines)
       {
         int64_t first = tq->timers_.begin()->first.microSecondsSinceEpoch();
         int64_t now2 = std::max(g_now_us, first);
-        std::set<int64_t> dues;
-        bool dup = false;
-        for (TimerQueue::TimerList::iterator it = tq->timers_.begin(); it != tq->timers_.end(); ++it)
-        {
-          int64_t d = it->first.microSecondsSinceEpoch();
-          if (d <= now2) { if (!dues.insert(d).second) dup = true; }
-        }
-        if (dup) rejected = true;      // two deadlines on the same microsecond: order is by address, not modelled
-        else { g_now_us = now2; tq->handleRead(); }
+        // equal deadlines run in the order of the Timer addresses; the callbacks (startInLoop / the empty removeConnector)
+        // give the same result in every order, the model fixes one
+        g_now_us = now2;
+        tq->handleRead();
       }
     }
     else if (k == "RUN" || k == "RUN1")
@@ -463,7 +458,6 @@ static int runCase(const std::vector<string>& lines)
     else if (k == "REL")
     {
       if (!user) rejected = true;
-      else if (user.use_count() == 1 && !(user->state_ == TcpConnection::kDisconnected && !user->channel_->addedToLoop_)) rejected = true;
       else user.reset();
     }
     else { fprintf(stderr, "bad op %s\n", k.c_str()); return 2; }
